@@ -192,21 +192,34 @@ def selftest(ctx):
         log("selftest model mutant '%s' -> %s" % (name, "property violated (good)" if bad else "NOT DETECTED"))
         ok &= bad
     # (c) reachability of the interesting situations in the bounded model
-    rcfg = write_cfg(ctx, "reach.cfg", dict(consts, W=2, WSizes={1, 3, 5}), ["SPECIFICATION Spec", "INVARIANTS " + " ".join(REACH), "VIEW View", "CHECK_DEADLOCK FALSE"])
-    rc, out = run(["tlc", "-workers", "6", "-continue", "-metadir", ctx.metadir(), "-cleanup", "-noGenerateSpecTE", "-config", rcfg,
-                   os.path.join(SPEC, "NoisePipeMC.tla")], timeout=600, cwd=ctx.work, env={"JAVA_TOOL_OPTIONS": "-Xss512m"})
+    small = dict(consts, PlanKinds={"body"}, RBufs={1, 3}, ChunkSizes={1, 2})
+    seen = set()
+    for nm, cc in (("w1", dict(small, W=1, WSizes={3, 5})), ("w2", dict(small, W=2, WSizes={1, 3}, MaxWrites=3, MaxPend=0))):
+        rcfg = write_cfg(ctx, "reach_%s.cfg" % nm, cc, ["SPECIFICATION Spec", "INVARIANTS " + " ".join(REACH), "VIEW View", "CHECK_DEADLOCK FALSE"])
+        rc, out = run(["tlc", "-workers", "6", "-continue", "-metadir", ctx.metadir(), "-cleanup", "-noGenerateSpecTE", "-config", rcfg,
+                       os.path.join(SPEC, "NoisePipeMC.tla")], timeout=900, cwd=ctx.work, env={"JAVA_TOOL_OPTIONS": "-Xss512m"})
+        seen |= {r for r in REACH if ("Invariant %s is violated" % r) in out}
     for r in REACH:
-        hit = ("Invariant %s is violated" % r) in out
-        log("selftest reachability %s -> %s" % (r, "reached" if hit else "NOT REACHED"))
-        ok &= hit
+        log("selftest reachability %s -> %s" % (r, "reached" if r in seen else "NOT REACHED"))
+        ok &= r in seen
     # (a) binding demonstration on a good recorded trace
     cargo_build(ctx, ["noisepipe"])
     harness(ctx, "noisepipe", ["--systematic", "--random", 60, "--seed", ctx.seed, "--out", ctx.path("t.ndjson")])
     lines = read_lines(ctx.path("t.ndjson"))
     rnd = random.Random(ctx.seed)
 
+    # lines inside light segments before the reader's first error (the only ones the Impl layer is bound to)
+    bound, cur, live = set(), False, False
+    for i, ln in enumerate(lines):
+        if '"e":"reset"' in ln:
+            cur, live = '"light":true' in ln, True
+        elif '"res":"err"' in ln or '"res":"panic"' in ln:
+            live = False
+        elif cur and live:
+            bound.add(i)
+
     def corrupt(pred, mut, what, mode="prop"):
-        idxs = [i for i, ln in enumerate(lines) if pred(json.loads(ln))]
+        idxs = [i for i, ln in enumerate(lines) if (mode == "prop" or i in bound) and pred(json.loads(ln))]
         if not idxs:
             raise ToolError("selftest: no event to corrupt for %s" % what)
         i = rnd.choice(idxs[:2000])
